@@ -77,6 +77,25 @@ static void huge_hash(size_t bytes, bool alsoSoft) {
 	munmap(z, bytes);
 }
 
+// the four routines called DURING STATIC INITIALISATION of this program (this object file precedes the library on the link line): they
+// must already be fully functional then; the results are emitted as ordinary events from main
+struct EarlyCalls {
+	uint8_t st[64], s1[64], o1[128], hin[128], h1[64], sp[128], a[128], fill[64], f1[64], g1[64];
+	EarlyCalls() {
+		for (int i = 0; i < 64; ++i) { st[i] = (uint8_t)(i * 3 + 1); fill[i] = (uint8_t)(200 - i); } for (int i = 0; i < 128; ++i) { hin[i] = (uint8_t)(i ^ 0x5a); sp[i] = (uint8_t)(i * 11); }
+		memcpy(s1, st, 64); fillAes1Rx4<true>(s1, 128, o1);
+		hashAes1Rx4<true>(hin, 128, h1);
+		memcpy(a, sp, 128); memcpy(f1, fill, 64); hashAndFillAes1Rx4<true>(a, 128, g1, f1);
+	}
+};
+static EarlyCalls g_early;
+static void early_events() {
+	{ Line l; l.str("e", "fill1").num("n", 2).limbs("state", g_early.st, 64).limbs("soft_out", g_early.o1, 128).limbs("hard_out", g_early.o1, 128).limbs("soft_state", g_early.s1, 64).limbs("hard_state", g_early.s1, 64).str("when", "static-init"); l.emit(out); }
+	{ Line l; l.str("e", "hash1").limbs("input", g_early.hin, 128).limbs("soft", g_early.h1, 64).limbs("hard", g_early.h1, 64).str("when", "static-init"); l.emit(out); }
+	{ Line l; l.str("e", "hashfill").limbs("sp", g_early.sp, 128).limbs("fill", g_early.fill, 64).limbs("soft_hash", g_early.g1, 64).limbs("hard_hash", g_early.g1, 64).limbs("soft_sp", g_early.a, 128).limbs("hard_sp", g_early.a, 128)
+		.limbs("soft_fill", g_early.f1, 64).limbs("hard_fill", g_early.f1, 64).str("when", "static-init"); l.emit(out); }
+}
+
 static long long diffcount(const uint8_t* a, const uint8_t* b, size_t n) { long long d = 0; for (size_t i = 0; i < n; ++i) d += a[i] != b[i]; return d; }
 
 // full-size generator run: software vs hardware difference count + sampled local links
@@ -123,6 +142,7 @@ int main(int argc, char** argv) {
 	Rng rng(seed);
 	// --first combined: the combined hash-and-fill step is the FIRST AES routine this process runs (nothing else has been called that
 	// could have prepared state for it)
+	early_events();
 	if (!strcmp(arg(argc, argv, "--first", ""), "combined")) { hashfill_ev(rng, 2); hashfill_ev(rng, 1); hashfill_ev(rng, 5); fill_ev(rng, true, 1); fclose(out); return 0; }
 	if (!strcmp(arg(argc, argv, "--first", ""), "fill4")) { fill_ev(rng, true, 2); hash_ev(rng, 2, 0); fclose(out); return 0; }
 
